@@ -848,3 +848,354 @@ Proof.
       rewrite Bool.andb_true_r. auto. }
     split; [|exact Fr]. apply nodup_str_NoDup. now rewrite Ek.
 Qed.
+
+(* ====================================================================== *)
+(* evaluate_overlay, ValueFunction return, ResourceFunction target         *)
+(* ====================================================================== *)
+
+Lemma prepare_overlay_unfold x m :
+  prepare_overlay (x :: m) =
+  let (im, vs) := indexer_kvs (x :: m) 0 in Some {| ov_index := INode im; ov_values := vs |}.
+Proof. reflexivity. Qed.
+
+Lemma prepare_overlay_cons x m : exists ov, prepare_overlay (x :: m) = Some ov.
+Proof. rewrite prepare_overlay_unfold. destruct (indexer_kvs (x :: m) 0). eauto. Qed.
+
+Lemma prepare_overlay_some spec ov : prepare_overlay spec = Some ov -> spec <> [].
+Proof. destruct spec; [discriminate|discriminate]. Qed.
+
+(* one prepared overlay evaluated over [base] is the reference deep merge of
+   its document over [base]; it fails exactly when a leaf fails to evaluate *)
+Theorem evaluate_overlay_is_merge en spec ov base :
+  wf_doc (DMap spec) = true -> wf (JMap base) = true ->
+  prepare_overlay spec = Some ov ->
+  evaluate_overlay en ov base = ref_overlay en spec (JMap base).
+Proof.
+  intros Wd Wb P. destruct spec as [|x m]; [discriminate|].
+  pose proof (ov_ok_all (eval_doc (set_key "resource" (JMap base) en)) (DMap (x :: m)) 0) as H.
+  rewrite indexer_node in H. rewrite prepare_overlay_unfold in P.
+  destruct (indexer_kvs (x :: m) 0) as [im vs]. injection P as <-.
+  unfold evaluate_overlay, ref_overlay. cbn [ov_index ov_values fst snd] in *.
+  destruct (mapM (eval_doc (set_key "resource" (JMap base) en)) vs) as [vals|].
+  - destruct H as [t [Et H]]. rewrite Et.
+    specialize (H [] [] (JMap base) Wd Wb eq_refl). rewrite app_nil_r in H. exact H.
+  - now rewrite H.
+Qed.
+
+Lemma ref_overlay_wf en spec cur j :
+  wf_env en = true -> wf_doc (DMap spec) = true -> wf cur = true ->
+  ref_overlay en spec cur = Done j -> wf j = true.
+Proof.
+  intros We Wd Wc. unfold ref_overlay.
+  destruct (ev_tree _ (DMap spec)) as [t|] eqn:Et; [|discriminate]. intros [= <-].
+  apply wf_merge_doc; auto.
+  apply (ev_tree_wf _ _ (fun d' v W => eval_doc_wf _ d' (wf_set_key _ _ _ We Wc) W v) Wd _ Et).
+Qed.
+
+(* ---------- ValueFunction ---------- *)
+
+Definition base_of (vb : option kvs) : kvs := match vb with Some b => b | None => [] end.
+
+(* vf_return_is_merge: a ValueFunction's return is its return document
+   deep-merged over value_base (over the empty map when there is none) *)
+Theorem vf_return_is_merge f inputs vb :
+  wf_doc (DMap (sv_return f)) = true -> wf (JMap (base_of vb)) = true ->
+  sv_return f <> [] ->
+  reconcile_vf (prepare_vf f) inputs vb =
+  match vf_env (pv_locals (prepare_vf f)) inputs vb with
+  | None => PermFail
+  | Some full => ref_overlay full (sv_return f) (JMap (base_of vb))
+  end.
+Proof.
+  intros Wd Wb Hne. unfold reconcile_vf. cbn [prepare_vf pv_return pv_locals].
+  destruct (sv_return f) as [|x m] eqn:Er; [congruence|].
+  destruct (prepare_overlay_cons x m) as [ov P]. rewrite P.
+  destruct (vf_env _ inputs vb) as [full|]; [|reflexivity].
+  exact (evaluate_overlay_is_merge full (x :: m) ov (base_of vb) Wd Wb P).
+Qed.
+
+Lemma reconcile_vf_ref f inputs cur :
+  wf_doc (DMap (sv_return f)) = true -> wf (JMap cur) = true ->
+  reconcile_vf (prepare_vf f) inputs (Some cur) = ref_vf f inputs cur.
+Proof.
+  intros Wd Wb. unfold ref_vf. destruct (sv_return f) as [|x m] eqn:Er.
+  - unfold reconcile_vf. cbn [prepare_vf pv_return]. now rewrite Er.
+  - rewrite <- Er in *. rewrite (vf_return_is_merge f inputs (Some cur)); auto.
+    rewrite Er. discriminate.
+Qed.
+
+Lemma wf_bind_inputs i : (forall v, i = Some v -> wf v = true) -> wf_env (bind_inputs i) = true.
+Proof.
+  intros H. destruct i as [v|]; [|reflexivity]. unfold wf_env, bind_inputs.
+  apply wf_map_iff. split; [repeat constructor; simpl; tauto|].
+  constructor; [|constructor]. simpl. now apply H.
+Qed.
+
+Lemma vf_env_wf locals inputs cur full :
+  (forall v, inputs = Some v -> wf v = true) -> wf (JMap cur) = true ->
+  (forall d, locals = Some d -> wf_doc d = true) ->
+  vf_env locals inputs (Some cur) = Some full -> wf_env full = true.
+Proof.
+  intros Wi Wc Wl. unfold vf_env.
+  set (full0 := match cur with [] => bind_inputs inputs | _ :: _ => set_key "resource" (JMap cur) (bind_inputs inputs) end).
+  assert (wf_env full0 = true) as W0.
+  { subst full0. destruct cur; [now apply wf_bind_inputs|].
+    apply wf_set_key; auto. now apply wf_bind_inputs. }
+  replace (match cur with [] => bind_inputs inputs | p :: l => set_key "resource" (JMap (p :: l)) (bind_inputs inputs) end)
+    with full0 by (subst full0; now destruct cur).
+  destruct locals as [d|].
+  - destruct (eval_doc full0 d) as [[| | | | | |lv]|] eqn:E; try discriminate.
+    intros [= <-]. apply wf_set_key; auto. exact (eval_doc_wf _ _ W0 (Wl _ eq_refl) _ E).
+  - intros [= <-]. now apply wf_set_key.
+Qed.
+
+(* ---------- ResourceFunction ---------- *)
+
+Definition wf_svf (f : svf) : Prop :=
+  wf_doc (DMap (sv_locals f)) = true /\ wf_doc (DMap (sv_return f)) = true.
+
+Definition wf_sstep (s : sstep) : Prop :=
+  match s with
+  | SInline spec _ => wf_doc (DMap spec) = true
+  | SFn f _ inp => wf_svf f /\ wf_doc (DMap inp) = true
+  end.
+
+(* the non-skipped branch of [ref_step] *)
+Definition ref_apply (en : env) (cur : kvs) (s : sstep) : res kvs :=
+  match s with
+  | SInline spec _ => rbind (ref_overlay en spec (JMap cur)) to_map
+  | SFn f _ inp =>
+      match inp with
+      | [] => rbind (ref_vf f None cur) to_map
+      | m =>
+          match eval_doc en (DMap m) with
+          | Some i => rbind (ref_vf f (Some i) cur) to_map
+          | None => PermFail
+          end
+      end
+  end.
+
+Lemma ref_step_done en cur s :
+  ref_step en (Done cur) s =
+  rbind (skip_decision en (sstep_skip s)) (fun skip => if skip then Done cur else ref_apply en cur s).
+Proof. destruct s; reflexivity. Qed.
+
+Lemma prepare_step_skip s p : prepare_step s = Some p -> pstep_skip p = sstep_skip s.
+Proof.
+  destruct s as [spec skip|f skip inp]; simpl.
+  - destruct (prepare_overlay spec); [|discriminate]. now intros [= <-].
+  - now intros [= <-].
+Qed.
+
+Lemma apply_step_ref en cur s p :
+  prepare_step s = Some p -> wf_sstep s -> wf (JMap cur) = true ->
+  apply_step en cur p = ref_apply en cur s.
+Proof.
+  destruct s as [spec skip|f skip inp]; intros P W Wc.
+  - cbn [prepare_step] in P. destruct (prepare_overlay spec) as [ov|] eqn:Po; [|discriminate].
+    injection P as <-. cbn [apply_step ref_apply]. cbn [wf_sstep] in W.
+    now rewrite (evaluate_overlay_is_merge en spec ov cur W Wc Po).
+  - cbn [prepare_step] in P. injection P as <-. destruct W as [[Wl Wr] Wi].
+    cbn [apply_step ref_apply].
+    destruct inp as [|x inp].
+    + now rewrite reconcile_vf_ref.
+    + destruct (eval_doc en (DMap (x :: inp))); [|reflexivity]. now rewrite reconcile_vf_ref.
+Qed.
+
+Lemma to_map_done j m : rbind (A:=json) (Done j) to_map = Done m -> j = JMap m.
+Proof. simpl. destruct j; simpl; try discriminate. now intros [= ->]. Qed.
+
+Lemma rbind_done_inv {A B} (r : res A) (f : A -> res B) b : rbind r f = Done b -> exists a, r = Done a /\ f a = Done b.
+Proof. destruct r; simpl; try discriminate. eauto. Qed.
+
+Lemma ref_vf_wf f inputs cur j :
+  wf_svf f -> (forall v, inputs = Some v -> wf v = true) -> wf (JMap cur) = true ->
+  ref_vf f inputs cur = Done j -> wf j = true.
+Proof.
+  intros [Wl Wr] Wi Wc. unfold ref_vf.
+  destruct (sv_return f) as [|x m] eqn:Er; [now intros [= <-]|].
+  destruct (vf_env _ inputs (Some cur)) as [full|] eqn:Ev; [|discriminate].
+  apply ref_overlay_wf; auto.
+  apply (vf_env_wf _ _ _ _ Wi Wc) in Ev; auto.
+  intros d. cbn [prepare_vf pv_locals]. destruct (sv_locals f) eqn:El; [discriminate|].
+  intros [= <-]. exact Wl.
+Qed.
+
+Lemma ref_apply_wf en cur s cur' :
+  wf_env en = true -> wf_sstep s -> wf (JMap cur) = true ->
+  ref_apply en cur s = Done cur' -> wf (JMap cur') = true.
+Proof.
+  intros We W Wc. destruct s as [spec skip|f skip inp]; cbn [ref_apply wf_sstep] in *.
+  - intros H. destruct (ref_overlay en spec (JMap cur)) as [j| | |] eqn:E; try discriminate.
+    apply to_map_done in H. subst j. exact (ref_overlay_wf _ _ _ _ We W Wc E).
+  - destruct W as [Wf Wi]. destruct inp as [|x inp].
+    + intros H. destruct (ref_vf f None cur) as [j| | |] eqn:E; try discriminate.
+      apply to_map_done in H. subst j. apply (ref_vf_wf f None cur _ Wf); auto. intros v [=].
+    + destruct (eval_doc en (DMap (x :: inp))) as [i|] eqn:Ei; [|discriminate].
+      intros H. destruct (ref_vf f (Some i) cur) as [j| | |] eqn:E; try discriminate.
+      apply to_map_done in H. subst j. apply (ref_vf_wf f (Some i) cur _ Wf); auto.
+      intros v [= <-]. exact (eval_doc_wf _ _ We Wi _ Ei).
+Qed.
+
+Lemma fold_ref_step_fail en ss (r : res kvs) :
+  (forall m, r <> Done m) -> fold_left (ref_step en) ss r = r.
+Proof.
+  intros H. induction ss as [|s ss IH]; [reflexivity|]. simpl.
+  assert (ref_step en r s = r) as ->; [|exact IH].
+  destruct r; try reflexivity. exfalso. eapply H. reflexivity.
+Qed.
+
+(* the loop of _materialize_from_overlays is a left fold of "deep-merge this
+   overlay unless skipped" over the listed overlays *)
+Lemma materialize_steps_is_fold en : forall ss ps cur,
+  mapM prepare_step ss = Some ps -> Forall wf_sstep ss ->
+  wf_env en = true -> wf (JMap cur) = true ->
+  materialize_steps en ps cur = fold_left (ref_step en) ss (Done cur).
+Proof.
+  induction ss as [|s ss IH]; intros ps cur P W We Wc.
+  - injection P as <-. reflexivity.
+  - rewrite mapM_cons in P. destruct (prepare_step s) as [p|] eqn:Ps; [|discriminate].
+    destruct (mapM prepare_step ss) as [pr|] eqn:Pr; [|discriminate]. injection P as <-.
+    inversion W as [|? ? Ws W']; subst.
+    cbn [materialize_steps fold_left]. rewrite ref_step_done, (prepare_step_skip _ _ Ps).
+    destruct (skip_decision en (sstep_skip s)) as [[|]| | |]; cbn [rbind].
+    + now apply IH.
+    + rewrite (apply_step_ref en cur s p Ps Ws Wc).
+      destruct (ref_apply en cur s) as [cur'| | |] eqn:E; cbn [rbind].
+      * apply IH; auto. exact (ref_apply_wf _ _ _ _ We Ws Wc E).
+      * rewrite fold_ref_step_fail; [reflexivity|discriminate].
+      * rewrite fold_ref_step_fail; [reflexivity|discriminate].
+      * rewrite fold_ref_step_fail; [reflexivity|discriminate].
+    + rewrite fold_ref_step_fail; [reflexivity|discriminate].
+    + rewrite fold_ref_step_fail; [reflexivity|discriminate].
+    + rewrite fold_ref_step_fail; [reflexivity|discriminate].
+Qed.
+
+(* the forced ("security") overlay as a function on maps *)
+Definition forced_merge (forced m : kvs) : kvs := as_map (merge_val (JMap forced) (JMap m)).
+
+Lemma deep_overlay_forced forced m :
+  wf (JMap forced) = true -> wf (JMap m) = true -> deep_overlay forced m = forced_merge forced m.
+Proof.
+  intros Wf Wm. unfold forced_merge. now rewrite <- deep_overlay_is_merge_val.
+Qed.
+
+Lemma wf_forced_merge forced m :
+  wf (JMap forced) = true -> wf (JMap m) = true -> wf (JMap (forced_merge forced m)) = true.
+Proof.
+  intros Wf Wm. unfold forced_merge. rewrite merge_val_map. cbn [as_map].
+  rewrite <- merge_val_map. now apply wf_merge_val.
+Qed.
+
+Lemma merge_val_null v : merge_val v JNull = v.
+Proof. apply merge_val_nonmap. right. discriminate. Qed.
+
+Lemma forced_merge_empty forced : forced_merge forced [] = forced.
+Proof.
+  unfold forced_merge. rewrite merge_val_map. cbn [as_map]. rewrite merge_keys_alt. simpl.
+  induction forced as [|[k v] l IH]; simpl; [reflexivity|]. now rewrite merge_val_null, IH.
+Qed.
+
+Definition wf_template (t : stemplate) : Prop :=
+  match t with STInline m => wf_doc (DMap m) = true | _ => True end.
+
+Definition wf_tcache (tc : tcache) : Prop := Forall (fun nb => wf (JMap (snd nb)) = true) tc.
+
+Lemma template_value_wf en tc t base :
+  wf_env en = true -> wf_tcache tc -> wf_template t ->
+  template_value en tc t = Done base -> wf (JMap base) = true.
+Proof.
+  intros We Wtc Wt. destruct t as [|m|name]; cbn [template_value wf_template] in *.
+  - now intros [= <-].
+  - destruct m as [|x m]; [now intros [= <-]|].
+    destruct (eval_doc en (DMap (x :: m))) as [[| | | | | |v]|] eqn:E; try discriminate.
+    intros [= <-]. exact (eval_doc_wf _ _ We Wt _ E).
+  - destruct (eval_expr en name) as [[| | | | s | |]|]; try discriminate.
+    destruct (lookup s tc) as [body|] eqn:L; [|discriminate]. intros [= <-].
+    apply lookup_In in L. unfold wf_tcache in Wtc. rewrite Forall_forall in Wtc. exact (Wtc _ L).
+Qed.
+
+(* target_is_fold: the materialised Target Resource Specification is the
+   template's value, with the forced overlay merged in, then every listed
+   overlay that is not skipped deep-merged in order (a left fold), then the
+   forced overlay once more; with no overlays the forced overlay is applied
+   once.  A failure anywhere (PermFail / Retry) is the result. *)
+Theorem target_is_fold en tc t ss ps forced :
+  wf_env en = true -> wf_tcache tc -> wf_template t -> Forall wf_sstep ss ->
+  wf (JMap forced) = true ->
+  mapM prepare_step ss = Some ps ->
+  target en tc t ps forced =
+  rbind (template_value en tc t) (fun base =>
+    let start := forced_merge forced base in
+    match ss with
+    | [] => Done start
+    | _ => rmap (forced_merge forced) (fold_left (ref_step en) ss (Done start))
+    end).
+Proof.
+  intros We Wtc Wt Ws Wf P. unfold target.
+  assert (construct_template en tc t forced = rmap (forced_merge forced) (template_value en tc t)) as ->.
+  { destruct t as [|m|name].
+    - simpl. now rewrite forced_merge_empty.
+    - unfold construct_template.
+      destruct (template_value en tc (STInline m)) as [b| | |] eqn:E; try reflexivity.
+      simpl. f_equal. apply deep_overlay_forced; auto. exact (template_value_wf _ _ _ _ We Wtc Wt E).
+    - unfold construct_template.
+      destruct (template_value en tc (STRef name)) as [b| | |] eqn:E; try reflexivity.
+      simpl. f_equal. apply deep_overlay_forced; auto. exact (template_value_wf _ _ _ _ We Wtc Wt E). }
+  destruct (template_value en tc t) as [base| | |] eqn:E; try reflexivity.
+  cbn [rmap rbind].
+  pose proof (wf_forced_merge forced base Wf (template_value_wf _ _ _ _ We Wtc Wt E)) as Wstart.
+  destruct ss as [|s ss].
+  - injection P as <-. reflexivity.
+  - destruct ps as [|p ps]; [rewrite mapM_cons in P; destruct (prepare_step s); [destruct (mapM prepare_step ss)|]; discriminate|].
+    unfold materialize.
+    rewrite (materialize_steps_is_fold en (s :: ss) (p :: ps) _ P Ws We Wstart).
+    set (r := fold_left (ref_step en) (s :: ss) (Done (forced_merge forced base))).
+    assert (forall m, r = Done m -> wf (JMap m) = true) as Wr.
+    { subst r. clear P p ps. revert Wstart. generalize (forced_merge forced base) as cur.
+      revert Ws. generalize (s :: ss) as l. clear s ss.
+      induction l as [|s l IH]; intros Ws cur Wc m; cbn [fold_left].
+      - now intros [= <-].
+      - inversion Ws as [|? ? W1 W2]; subst. rewrite ref_step_done.
+        destruct (skip_decision en (sstep_skip s)) as [[|]| | |]; cbn [rbind];
+          try (rewrite fold_ref_step_fail by discriminate; discriminate).
+        + now apply IH.
+        + destruct (ref_apply en cur s) as [cur'| | |] eqn:Ea;
+            try (rewrite fold_ref_step_fail by discriminate; discriminate).
+          apply IH; auto. exact (ref_apply_wf _ _ _ _ We W1 Wc Ea). }
+    destruct r as [m| | |]; try reflexivity.
+    simpl. f_equal. apply deep_overlay_forced; auto.
+Qed.
+
+(* create: create.overlay deep-merged over the target, then the forced overlay *)
+Theorem create_is_merge en spec view forced :
+  wf_env en = true -> wf_doc (DMap spec) = true -> wf (JMap view) = true -> wf (JMap forced) = true ->
+  create_view en (prepare_overlay spec) view forced =
+  rmap (forced_merge forced)
+    (match spec with
+     | [] => Done view
+     | _ => rbind (ref_overlay en spec (JMap view)) to_map
+     end).
+Proof.
+  intros We Wd Wv Wf. unfold create_view. destruct spec as [|x m].
+  - simpl. f_equal. now apply deep_overlay_forced.
+  - destruct (prepare_overlay_cons x m) as [ov P]. rewrite P.
+    rewrite (evaluate_overlay_is_merge en (x :: m) ov view Wd Wv P).
+    destruct (ref_overlay en (x :: m) (JMap view)) as [j| | |] eqn:E; try reflexivity.
+    pose proof (ref_overlay_wf _ _ _ _ We Wd Wv E) as Wj.
+    destruct j; try reflexivity. simpl. f_equal. now apply deep_overlay_forced.
+Qed.
+
+(* determinism: the model is a function; stated for completeness *)
+Theorem eval_deterministic en ov base r1 r2 :
+  evaluate_overlay en ov base = r1 -> evaluate_overlay en ov base = r2 -> r1 = r2.
+Proof. congruence. Qed.
+
+(* the applier never raises on an index produced by the indexer *)
+Theorem evaluate_overlay_no_raise en spec ov base e :
+  wf_doc (DMap spec) = true -> wf (JMap base) = true -> prepare_overlay spec = Some ov ->
+  evaluate_overlay en ov base <> Raised e.
+Proof.
+  intros Wd Wb P. rewrite (evaluate_overlay_is_merge en spec ov base Wd Wb P).
+  unfold ref_overlay. destruct (ev_tree _ _); discriminate.
+Qed.
